@@ -1462,6 +1462,14 @@ def _tensor_packer(model: Model, P: RuleResult):
 
 
 # ------------------------------------------------------------------------------------------ driver
+def direction_rule(model: Model, V: RuleResult):
+    """the time-reversal rule alone (used by C08: the adjoint system is integrated on decreasing two-point grids)"""
+    scratch = lambda: RuleResult(PROP, "scratch", "not reported", min_instances=0)
+    rm = _rkstep_roles(model, scratch())
+    pos, names = _controller(model, scratch(), scratch(), rm)
+    _adaptive_driver(model, scratch(), scratch(), scratch(), V, pos, names)
+
+
 def rules(model: Model, tier: str) -> List[RuleResult]:
     T = RuleResult(PROP, "C07-T", "tableau algebra: explicitness, row sums, every Butcher order condition up to the declared order (exact rationals)", min_instances=20)
     N = RuleResult(PROP, "C07-N", "coefficients equal the named scheme (classic RK4, 3/8 rule, Euler, Bogacki-Shampine, Dormand-Prince)", min_instances=5)
